@@ -146,6 +146,184 @@ def unit_raises(ctx, quick):
              "feature under strategy all (ZeroDivisionError): the model returns None exactly when the real counter raises; specification = no exception on well-formed events")
 
 
+# ---------------------------------------------------------------------------------------------- transcript-model bookkeeping (unit level)
+PRE_M = """From Coq Require Import QArith.
+From IQ Require Import Counting CountingCounter CountingCheck CountingModels CountingModelsCheck.
+Open Scope Z_scope.
+"""
+
+class _Recorder:
+    """stands where GraphBasedModelConstructor.transcript_counter stands: records every call and forwards it to the real counters"""
+    def __init__(self, inner): self._inner = inner; self.calls = []
+    def add_read_info_raw(self, read_id, feature_ids, group_id="NA"):
+        self.calls.append(("raw", read_id, list(feature_ids), group_id)); self._inner.add_read_info_raw(read_id, feature_ids, group_id)
+    def add_unassigned(self, n_reads=1): self.calls.append(("unassigned", n_reads)); self._inner.add_unassigned(n_reads)
+    def add_unaligned(self, n_reads=1): self.calls.append(("unaligned", n_reads)); self._inner.add_unaligned(n_reads)
+    def add_confirmed_features(self, features): self.calls.append(("confirm", list(features))); self._inner.add_confirmed_features(features)
+    def __getattr__(self, name):
+        def other(*a, **k):
+            self.calls.append(("other", name)); return getattr(self._inner, name)(*a, **k)
+        return other
+
+
+def run_real_models(case, workdir):
+    """the REAL GraphBasedModelConstructor bookkeeping on one generated step sequence: transcript_model_storage.append / save_assigned_read /
+       delete_from_storage / assign_reads_to_models (its collaborators GeneInfo.from_models, LongReadAssigner, CombinedProfileConstructor replaced by
+       stubs that hand out the generated verdicts) / forward_counts into real transcript-model counters (ungrouped + grouped behind one
+       CompositeCounter, as ReadAssignmentAggregator builds them), GFFPrinter.dump_read_assignments, dump + merge_counts"""
+    import io, collections
+    from src import graph_based_model_construction as G
+    from src.transcript_printer import GFFPrinter
+    from src.long_read_counter import create_transcript_counter, CompositeCounter
+    from src.file_utils import merge_counts
+    mname = lambda m: "T%02d" % m; rname = lambda r: "read_%d" % r
+    obj = object.__new__(G.GraphBasedModelConstructor)
+    obj.transcript_model_storage = []; obj.transcript_read_ids = collections.defaultdict(list); obj.read_assignment_counts = collections.defaultdict(int)
+    obj.internal_counter = collections.defaultdict(int); obj.params = types.SimpleNamespace(delta=6)
+    pref = lambda label, suffix: os.path.join(workdir, "%s.transcript_model%s" % (label, suffix))
+    lab = LABEL + "_chr1"
+    cu = create_transcript_counter(pref(lab, ""), case["strategy"], output_zeroes=False)
+    main_u = create_transcript_counter(pref(LABEL, ""), case["strategy"], output_zeroes=False)
+    counters = [cu]
+    if case["groups"]:
+        cg = create_transcript_counter(pref(lab, "_grouped"), case["strategy"], read_groups=list(case["groups"]), output_zeroes=False)
+        main_g = create_transcript_counter(pref(LABEL, "_grouped"), case["strategy"], read_groups=list(case["groups"]), output_zeroes=False)
+        counters.append(cg)
+    comp = CompositeCounter([]); comp.add_counters(counters)
+    rec = _Recorder(comp); obj.transcript_counter = rec
+    def ra(r, g, tag=0): return types.SimpleNamespace(read_id=rname(r), read_group=g, corrected_exons=[(tag, tag)], polya_info=None)
+    for op in case["ops"]:
+        k = op[0]
+        if k == "model": obj.transcript_model_storage.append(types.SimpleNamespace(transcript_id=mname(op[1])))
+        elif k == "save": obj.save_assigned_read(ra(op[1], op[2]), mname(op[3]))
+        elif k == "delete":
+            obj.internal_counter[mname(op[1])] += 0              # the filters read internal_counter[model] before they delete
+            obj.delete_from_storage(mname(op[1]))
+            obj.transcript_model_storage = [x for x in obj.transcript_model_storage if x.transcript_id != mname(op[1])]
+        elif k == "assign":
+            verdicts = {i + 1: v for i, (r, g, v) in enumerate(op[1])}
+            storage = [ra(r, g, i + 1) for i, (r, g, v) in enumerate(op[1])]
+            class Assigner:
+                def __init__(self, *a, **k): pass
+                def assign_to_isoform(self, read_id, profile):
+                    v = verdicts[profile]
+                    return types.SimpleNamespace(assignment_type=types.SimpleNamespace(is_consistent=lambda: v is not None), read_group=None,
+                                                 isoform_matches=[types.SimpleNamespace(assigned_transcript=mname(m)) for m in (v or [])])
+            class Profiles:
+                def __init__(self, *a, **k): pass
+                def construct_profiles(self, read_exons, polya_info, cage): return read_exons[0][0]
+            saved = (G.GeneInfo, G.LongReadAssigner, G.CombinedProfileConstructor)
+            G.GeneInfo = types.SimpleNamespace(from_models=lambda storage, delta: None); G.LongReadAssigner = Assigner; G.CombinedProfileConstructor = Profiles
+            try: obj.assign_reads_to_models(storage)
+            finally: G.GeneInfo, G.LongReadAssigner, G.CombinedProfileConstructor = saved
+    obj.forward_counts()
+    out = io.StringIO()
+    GFFPrinter.dump_read_assignments(types.SimpleNamespace(output_r2t=True, out_r2t=out), obj)
+    res = dict(calls=rec.calls)
+    res["tri"] = [(int(m[1:]), [(int(a.read_id[5:]), a.read_group) for a in l]) for m, l in obj.transcript_read_ids.items() if l]
+    res["rac"] = [(int(r[5:]), n) for r, n in obj.read_assignment_counts.items()]
+    res["models"] = [int(x.transcript_id[1:]) for x in obj.transcript_model_storage]
+    res["lines"] = [(int(a[5:]), None if b == "*" else int(b[1:])) for a, b in (l.split("\t") for l in out.getvalue().splitlines())]
+    comp.dump()
+    merge_counts(main_u, LABEL, ["chr1"], 0)
+    _, rows, under = parse_table(main_u.output_counts_file_name)
+    res["rows"] = [(int(f[1:]), v) for f, v in rows]; res["stats"] = under
+    if case["groups"]:
+        merge_counts(main_g, LABEL, ["chr1"], 0)
+        hdr, grows, gunder = parse_table(main_g.output_counts_file_name)
+        res["ghdr"] = hdr or []; res["grows"] = [(int(f[1:]), v) for f, v in grows]; res["gunder"] = gunder
+        res["glinear"] = [(int(f[1:]), g, v) for f, g, v in parse_linear(main_g.linear_output_file)]
+    return res
+
+
+def gen_model_case(rnd, strategy):
+    """a legal step sequence as process() issues them: models, reads saved during construction, a pre-filter, a first assignment round, a filter, the second round"""
+    pool = rnd.choice([["NA", "a", "b"], ["zeta", "alpha"], ["x"], []])
+    nm = rnd.randint(1, 4); nr = rnd.randint(1, 6)
+    group = {r: (rnd.choice(pool) if pool else "NA") for r in range(1, nr + 1)}
+    ops = []; storage = []
+    for m in range(1, nm + 1):
+        ops.append(("model", m)); storage.append(m)
+        for r in rnd.sample(range(1, nr + 1), min(nr, rnd.choice([0, 0, 1, 2]))): ops.append(("save", r, group[r], m))
+    def deletes(p):
+        for m in list(storage):
+            if rnd.random() < p: ops.append(("delete", m)); storage.remove(m)
+    def verdict():
+        x = rnd.random()
+        if x < .12 or not storage: return None if rnd.random() < .5 else []
+        return rnd.sample(storage, min(len(storage), rnd.choice([1, 1, 1, 2, 2, 3])))
+    def round_():
+        reads = list(range(1, nr + 1))
+        if rnd.random() < .2: reads.insert(rnd.randint(0, len(reads)), rnd.choice(reads))      # the same read id twice in the storage
+        ops.append(("assign", [(r, group[r], verdict()) for r in reads]))
+    deletes(.2); round_(); deletes(.3); round_()
+    return dict(strategy=strategy, groups=pool, truth=group, ops=ops)
+
+
+def unit_models(ctx, quick):
+    rnd = ctx.rnd; cases_py = []
+    subsets = [[m for m in (1, 2, 3) if b >> (m - 1) & 1] for b in range(8)]
+    for n in (1, 2, 3):
+        for vs in itertools.product(subsets, repeat=n):
+            for s in STRATS:
+                group = {r: ("a", "NA", "b")[r - 1] for r in range(1, n + 1)}
+                cases_py.append(dict(strategy=s, groups=["b", "NA", "a"], truth=group, flavour="exhaustive",
+                                     ops=[("model", 1), ("model", 2), ("model", 3), ("assign", [(r, group[r], list(vs[r - 1])) for r in range(1, n + 1)])]))
+    nrand = 600 if quick else 6000
+    strategies = list(STRATS)
+    for i in range(nrand): cases_py.append(dict(gen_model_case(rnd, strategies[i % 5]), flavour="random"))
+    cases = []; work = tempfile.mkdtemp(prefix="iqv_c02m_")
+    try:
+        for case in cases_py:
+            d = tempfile.mkdtemp(dir=work)
+            try:
+                res = run_real_models(case, d)
+            except Exception as e:
+                ctx.violation(None, "the transcript-model bookkeeping / counter raises %s on a legal step sequence" % type(e).__name__, {"case": case, "error": impl_error(e)}); continue
+            finally:
+                shutil.rmtree(d, ignore_errors=True)
+            gi = Interner(list(case["groups"]) + ["NA"] + list(case["truth"].values()))
+            py = {"case": case, "counter_calls": res["calls"], "rows": [(f, [str(x) for x in v]) for f, v in res["rows"]], "stats": res["stats"], "transcript_model_reads_lines": res["lines"],
+                  "grouped_header": res.get("ghdr"), "grouped_rows": [(f, [str(x) for x in v]) for f, v in res.get("grows", [])]}
+            if any(c[0] == "other" for c in res["calls"]) or res.get("gunder"):
+                ctx.violation(None, "forward_counts calls an unexpected counter method / the grouped model table carries statistics lines", py); continue
+            def cev(c):
+                if c[0] == "raw": return "(ERaw %s %s %s)" % (cbool(bool(c[1])), czs([int(f[1:]) for f in c[2]]), cz(gi(c[3])))
+                if c[0] == "unassigned": return "(EUnassigned %s)" % cz(c[1])
+                if c[0] == "unaligned": return "(EUnaligned %s)" % cz(c[1])
+                return "(EConfirm %s)" % czs([int(f[1:]) for f in c[1]])
+            def cop(o):
+                if o[0] == "model": return "(OModel %d)" % o[1]
+                if o[0] == "save": return "(OSave %d %s %d)" % (o[1], cz(gi(o[2])), o[3])
+                if o[0] == "delete": return "(ODelete %d)" % o[1]
+                return "(OAssign %s)" % clist(o[1], lambda x: "(%d, %s, %s)" % (x[0], cz(gi(x[1])), copt(x[2], czs)))
+            stats = dict(res["stats"])
+            try:
+                obs = "(mkmobs %s %s %s %s %s %s %s %s %s %s)" % (
+                    clist(res["tri"], lambda p: "(%d, %s)" % (p[0], clist(p[1], lambda a: "(%d, %s)" % (a[0], cz(gi(a[1])))))), clist(res["rac"], lambda p: "(%d, %s)" % (p[0], cz(p[1]))), czs(res["models"]),
+                    clist(res["calls"], cev), clist(res["rows"], lambda r: "(%d, %s)" % (r[0], clist(r[1], cq))), czs([int(stats.get(n, -1)) for n in ("__ambiguous", "__no_feature", "__not_aligned")]),
+                    clist(res["lines"], lambda l: "(%d, %s)" % (l[0], copt(l[1], cz))), czs([gi(g) for g in res.get("ghdr", [])]),
+                    clist(res.get("grows", []), lambda r: "(%d, %s)" % (r[0], clist(r[1], cq))), clist(res.get("glinear", []), lambda r: "(%d, %s, %s)" % (r[0], cz(gi(r[1])), cq(r[2]))))
+            except KeyError as e:
+                ctx.violation(None, "a group that no read carries appears in the counter calls / grouped model table", dict(py, group=str(e))); continue
+            k = "(mkmcase %s %s %s %s %s)" % (STRATS[case["strategy"]], cz(gi("NA")), czs([gi(g) for g in case["groups"]]),
+                                              clist(sorted(case["truth"].items()), lambda p: "(%d, %s)" % (p[0], cz(gi(p[1])))), clist(case["ops"], cop))
+            cases.append(("(%s, %s)" % (k, obs), py))
+    finally:
+        shutil.rmtree(work, ignore_errors=True)
+    pre = PRE_M + "Definition check := check_m.\nDefinition prop := prop_m.\n"
+    mism, viol = ctx.corr("model_bookkeeping", pre, cases, shard=120, ctype="mcase * mobs", nontrivial=lambda o: any(any(Fraction(x) != 0 for x in v) for _, v in o["rows"]))
+    ctx.corr_report("model_bookkeeping", mism, viol, what="transcript-model table / statistics lines of the real forward_counts + counters differ from what the transcript_model_reads.tsv lines of the same run prescribe")
+    ctx.rule("transcript-model bookkeeping (unit): the REAL GraphBasedModelConstructor.save_assigned_read / delete_from_storage / assign_reads_to_models (assigner, profile constructor and "
+             "GeneInfo.from_models stubbed to hand out generated verdicts) / forward_counts into real transcript-model counters (ungrouped + grouped, output_zeroes off, behind a recording "
+             "CompositeCounter), GFFPrinter.dump_read_assignments, dump + merge_counts; exhaustive: 1-3 reads x every subset of 3 models per read x 5 strategies (%d cases), plus %d random legal step "
+             "sequences (1-4 models, 1-6 reads, reads saved during construction, deletions before / between the two assignment rounds, inconsistent verdicts, a read id twice in the storage, 0-3 groups); "
+             "bookkeeping state, the sequence of counter calls, transcript_model_reads lines and dumped tables compared with the model (check_m); specification = the dumped tables are what the "
+             "implementation's own transcript_model_reads lines prescribe (counts_ok, stats_ok, grouped_ok on the reconstructed call sequence: theorem C02_model_reads_table_matches_counts) "
+             "and every read of the step sequence is listed exactly once, with its models or as '*' (so __no_feature counts every read without a model); "
+             "non-trivial = a non-zero cell" % (len(cases_py) - nrand, nrand))
+
+
 def run_jobs(jobs, nworkers=4):
     import pipeline as P
     from concurrent.futures import ThreadPoolExecutor
@@ -268,7 +446,9 @@ def pipeline(ctx, quick):
                  "on experiments made of SEVERAL BAM files (--bam a b c): a generated data set in 3 files with 4/2/0 unmapped records and the bundled alignments split into two files with 3/2 unmapped "
                  "records (--read_group file_name, two groups); every cell of gene_counts / transcript_counts / transcript_model_counts, the __ambiguous/__no_feature/__not_aligned lines and "
                  "the TPM tables are recomputed inside Coq from read_assignments.tsv + corrected_reads.bed + the reference GTF (mono-exonic isoforms) + transcript_model_reads.tsv + "
-                 "transcript_models.gtf (counts_ok, stats_ok, tpm_ok); __not_aligned is compared with the number of records carrying the unmapped flag counted by reading every record of every input BAM file; "
+                 "transcript_models.gtf (counts_ok, stats_ok, tpm_ok; for the transcript-model table the call sequence is reconstructed from the transcript_model_reads.tsv lines exactly as "
+                 "events_from_r2t of coq/CountingModels.v does, and theorem C02_model_reads_table_matches_counts proves that this reconstruction has the cells and statistics of the calls forward_counts "
+                 "made from consistent bookkeeping, which C02_model_table_is_weighted_sum / C02_model_stats_lines_count equate with the documented weighted sums); __not_aligned is compared with the number of records carrying the unmapped flag counted by reading every record of every input BAM file; "
                  "the grouped tables of the --read_group runs are recomputed in the same way, each with the strategy given for it (gene table: --gene_quantification, transcript and transcript-model "
                  "tables: --transcript_quantification), and must partition the ungrouped ones (grouped_ok); "
                  "per read id the total contribution over all its records must not exceed 1 (non-trivial = a read with several records)")
@@ -285,6 +465,7 @@ def run(ctx):
     section(ctx, "strategy_and_weights", strategy_and_weights, ctx)
     section(ctx, "unit_ungrouped", unit_ungrouped, ctx, quick)
     section(ctx, "unit_raises", unit_raises, ctx, quick)
+    section(ctx, "unit_models", unit_models, ctx, quick)
     section(ctx, "pipeline", pipeline, ctx, quick)
     ctx.assume.append("float -> rational reconstruction of internal counter values (Fraction.limit_denominator(30000), accepted only within 1e-9): float summation error is outside the model")
     ctx.assume.append("feature and group names are interned order-preservingly (Python sorted() on names = the model's sortz on codes); names starting with '_' or '#' are not generated")
